@@ -135,7 +135,9 @@ impl Builder {
             let i = rng.usize_below(16);
             gpr[i] = rng.interesting_u64();
         }
-        let flags_pool = [0x001u64, 0x004, 0x010, 0x040, 0x080, 0x800, 0x400];
+        // arithmetic flags, DF, and the two user-settable flags above bit 15: AC (18) and ID (21).
+        // (AC is harmless here: the stubs only make aligned accesses and all signals are blocked.)
+        let flags_pool = [0x001u64, 0x004, 0x010, 0x040, 0x080, 0x800, 0x400, 0x4_0000, 0x20_0000];
         let mut rflags = 0x202; // IF + reserved bit 1
         for f in flags_pool {
             if rng.chance(1, 2) {
@@ -211,6 +213,15 @@ impl Builder {
             regs.gpr[R12] = rng.below(1 << 40);
             // rsp+8 must be writable and 8-aligned for atomic-looking stores
             regs.gpr[RSP] &= !7;
+            if shape.pages > 0 {
+                let top = stack_base + shape.pages * PAGE - 16;
+                if regs.gpr[RSP] > top {
+                    regs.gpr[RSP] = top;
+                }
+                if regs.gpr[RSP] < stack_base {
+                    regs.gpr[RSP] = stack_base;
+                }
+            }
             regs.rflags = 0x202;
         }
         if mode == Mode::Pause {
